@@ -30,6 +30,24 @@ impl fmt::Display for Ep {
         write!(f, "peer-{}", self.1)
     }
 }
+// More traits than the crate asks for today, all consistent with the identity (field 0), so that an implementation
+// that starts to keep endpoints in an ordered or hashed container still builds against this driver.
+impl Eq for Ep {}
+impl PartialOrd for Ep {
+    fn partial_cmp(&self, o: &Ep) -> Option<std::cmp::Ordering> {
+        Some(self.cmp(o))
+    }
+}
+impl Ord for Ep {
+    fn cmp(&self, o: &Ep) -> std::cmp::Ordering {
+        self.0.cmp(&o.0)
+    }
+}
+impl std::hash::Hash for Ep {
+    fn hash<H: std::hash::Hasher>(&self, h: &mut H) {
+        self.0.hash(h)
+    }
+}
 
 #[derive(Clone, Copy, PartialEq, Eq)]
 enum Prop {
